@@ -106,11 +106,13 @@ def read_bars(ax):
     for coll in ax.collections:
         if not isinstance(coll, PolyCollection):
             continue
-        for path in coll.get_paths():
+        fcs = coll.get_facecolor()
+        for i, path in enumerate(coll.get_paths()):
             v = path.vertices
             x0, x1 = float(v[:, 0].min()), float(v[:, 0].max())
             y0, y1 = float(v[:, 1].min()), float(v[:, 1].max())
-            fc = tuple(round(float(c), 6) for c in coll.get_facecolor()[0])
+            # one colour for the whole collection or one per bar (both are valid ways to draw)
+            fc = tuple(round(float(c), 6) for c in fcs[i if len(fcs) > 1 else 0])
             bars.append((y0, y1, x0, x1, fc))
     return bars
 
